@@ -181,7 +181,9 @@ def run(chk):
   for m in ALL_MGRS:
     chk.require(hits.get('enter:' + m, 0) > 0, f'vacuous: manager {m} never entered')
     chk.require(hits.get('exit:' + m, 0) > 0, f'vacuous: manager {m} never left')
-  for k in ('exit:ExitNormal', 'exit:ExitByException', 'propagate', 'exit:ctxprop', 'dont_care:wrap'):
+  for k in ('exit:ExitNormal', 'exit:ExitByException', 'propagate', 'exit:ctxprop', 'dont_care:wrap',
+            'exit_outcome:raised', 'exit_outcome:suppressed', 'exit_outcome:propagated', 'exit_callback_run',
+            'enter_refused:dyn', 'enter_refused:detour'):
     chk.require(hits.get(k, 0) > 0, f'vacuous: {k} never happened')
   for m in ('sealed', 'perm', 'ctx', 'detour', 'strfmt', 'viewopt', 'codectx', 'dyn', 'ldtypes', 'timeit', 'notify'):
     chk.require(hits.get('nested_same_mgr:' + m, 0) > 0, f'vacuous: {m} never nested directly in itself')
